@@ -241,7 +241,8 @@ fn ident_escape(s: &str) -> IResult<&str, char> {
         Some((i, c)) if c.is_hex_digit() => {
             // Option 1: up to 6 hex digits.
             let start_idx = i;
-            let mut end_idx = i + 1;
+            // The digits may run to the end of the input.
+            let mut end_idx = rest.len();
             for (nexti, nextc) in chars {
                 if nextc.is_hex_digit() && nexti - start_idx < 6 {
                     continue;
@@ -251,7 +252,17 @@ fn ident_escape(s: &str) -> IResult<&str, char> {
                 }
             }
             let val = u32::from_str_radix(&rest[start_idx..end_idx], 16).unwrap();
-            Ok((&rest[end_idx..], char::from_u32(val).unwrap_or('\u{fffd}')))
+            // A single whitespace character after the digits terminates the
+            // escape and is part of it (`\\31 0` is "10").
+            let mut after = &rest[end_idx..];
+            if let Some(stripped) = after.strip_prefix("\r\n") {
+                after = stripped;
+            } else if let Some(c) = after.chars().next() {
+                if matches!(c, ' ' | '\t' | '\n' | '\r' | '\x0c') {
+                    after = &after[1..];
+                }
+            }
+            Ok((after, char::from_u32(val).unwrap_or('\u{fffd}')))
         }
         Some((_i, c)) => {
             let bytes = c.len_utf8();
